@@ -484,7 +484,9 @@ def slice_list(I, sl, lo, hi):
     # Python clamps; the supported case is 0 <= lo <= len and 0 <= hi <= len (checked on the path)
     I.path.require(z3.And(lo_t >= 0, lo_t <= sl.length, hi_t >= 0, hi_t <= sl.length), "builtin:symbolic-slice-within-range")
     n = z3.simplify(hi_t - lo_t) if I.path.branch(hi_t >= lo_t, "slice-range-not-empty") else z3.IntVal(0)
-    return SList(n, lambda t: sl.elem(z3.simplify(t + lo_t)), f"{sl.tag}[{lo_t}:{hi_t}]")
+    r = SList(n, lambda t: sl.elem(z3.simplify(t + lo_t)), f"{sl.tag}[{lo_t}:{hi_t}]")
+    r.all_expr = getattr(sl, "all_expr", False)
+    return r
 
 
 def concat(I, a, b):
@@ -558,6 +560,72 @@ def helper_nary_init(I, fd, args):
     return None
 
 
+def helper_first_match(I, fd, args):
+    """utilities.first_match_by_predicate(children, predicate) -> None when no child satisfies the
+    predicate, else (i, children[i]) for the first i that does."""
+    sl, pred = args
+    from .values import Closure
+    if not (isinstance(pred, Closure) and pred.node is not None and isinstance(pred.node, ast.Lambda)
+            and len(pred.node.args.args) == 1 and _is_child_predicate(pred.node.body, pred.node.args.args[0].arg)):
+        _unsupported("first_match_by_predicate with a predicate that is not a class / parameter test of the element")
+    var = pred.node.args.args[0].arg
+    fam = sl.family
+    P = lambda t: child_predicate(I, pred.node.body, pred.env, var, fam, t)
+    none = gmode.forall_const(I, sl.length, lambda t: z3.Not(P(t)), f"no-match({sl.tag})")
+    if I.path.branch(none, "first-match-is-None"):
+        return None
+    i = z3.Int(I.path.fresh_name("i!first"))
+    I.path.assume(z3.And(i >= 0, i < sl.length, P(i)))
+    q = qm(I)
+    q.add_index(i, sl.length)
+    q.foralls.append((i, lambda t: z3.Not(P(t))))
+    split_lemmas(I, sl, i)
+    return (RangedIndex(i, sl.length), sl.elem(i))
+
+
+def split_lemmas(I, whole, i):
+    """sum / product over a list = that over the entries before i, entry i, and the entries after i
+    (spec/lemmas.lean: ax_bigsum_split_at, ax_bigprod_split_at)."""
+    fam = whole.family
+    owner = getattr(getattr(I.ghost.get("self"), "cls", None), "name", None)
+    for pt in list(I.ghost.get("points", {}).values()):
+        V = lambda t: spec.den(I, fam.child(I, t), pt).V
+        after = lambda u: V(z3.simplify(u + i + 1))
+        n_after = z3.simplify(whole.length - i - 1)
+        if owner != "Multiply":
+            qm(I).links.append(gmode.bigsum(I, V, whole.length) == gmode.bigsum(I, V, i) + V(i) + gmode.bigsum(I, after, n_after))
+        if owner != "Add":
+            qm(I).links.append(gmode.bigprod(I, V, whole.length) == gmode.bigprod(I, V, i) * V(i) * gmode.bigprod(I, after, n_after))
+
+
+def nested_operands(I, o):
+    """`child._inners` for a child of a symbolic-arity node that is known to be an Add / Multiply:
+    its own operands form a family of their own symbolic length; what the child denotes is the
+    sum / product over it (the quantified form of contracts.refine for n-ary classes)."""
+    fam, idx = o.ghost["indexed"]
+    cache = I.ghost.setdefault("nested_families", {})
+    key = (fam.name, idx.get_id())
+    if key in cache:
+        return cache[key]
+    k2 = z3.Int(I.path.fresh_name(f"{o.name}.arity"))
+    I.path.assume(k2 >= 0)
+    fam2 = gmode.ChildFamily(I, f"{o.name}._inners", k2)
+    sl2 = fam2.slist(I)
+    q = qm(I)
+    is_add, is_mul = fam.tagF(idx) == sym.CLS["Add"], fam.tagF(idx) == sym.CLS["Multiply"]
+    U2 = gmode.bigunion(I, k2, lambda u: fam2.varsF(u), f"Vars({o.name})")
+    q.links.append(z3.Implies(z3.Or(is_add, is_mul), fam.varsF(idx) == U2))
+    for pt in list(I.ghost.get("points", {}).values()):
+        d = spec.den(I, o, pt)
+        d2 = lambda u: spec.den(I, fam2.child(I, u), pt)
+        allD = gmode.forall_const(I, k2, lambda u: d2(u).D, f"D({o.name})")
+        q.links.append(z3.Implies(z3.Or(is_add, is_mul), d.D == allD))
+        q.links.append(z3.Implies(z3.And(is_add, d.D), d.V == gmode.bigsum(I, lambda u: d2(u).V, k2)))
+        q.links.append(z3.Implies(z3.And(is_mul, d.D), d.V == gmode.bigprod(I, lambda u: d2(u).V, k2)))
+    cache[key] = sl2
+    return sl2
+
+
 def helper_list_with_updated(I, fd, args):
     entries, i, new = args
     if isinstance(i, RangedIndex) and z3.simplify(i.length).get_id() == z3.simplify(entries.length).get_id():
@@ -569,6 +637,7 @@ def helper_list_with_updated(I, fd, args):
 
 HELPER_CONTRACTS = {
     "utilities.list_with_updated_entry_at": (helper_list_with_updated, lambda args: len(args) == 3 and isinstance(args[0], SList)),
+    "utilities.first_match_by_predicate": (helper_first_match, lambda args: len(args) == 2 and isinstance(args[0], SList) and args[0].family is not None),
     "NAryExpression.__init__": (helper_nary_init, lambda args, I=None: len(args) >= 2 and isinstance(args[0], Obj)
                                 and sum(isinstance(x, StarArgs) for x in args) >= 1),
     "utilities.partition_by_predicate": (lambda I, fd, args: helper_partition(I, fd, args),
